@@ -43,8 +43,19 @@ def gen_inherit(rng):
     edits = {}
     exp_eqs = list(base_eqs)
     new_vars = {}
-    kind = rng.choice(['replace', 'replace', 'replace', 'replace2', 'append', 'add', 'remove', 'vars-only'])
-    if kind in ('replace', 'replace2'):
+    kind = rng.choice(['replace', 'replace', 'replace', 'replace2', 'append', 'add', 'remove', 'vars-only', 'replace+add',
+                       'replace+add'])
+    if kind == 'replace+add':
+        # one edit dictionary with both keys; the added equation mentions the replaced identifier and must stay verbatim
+        old = rng.choice(['k', 'r2', 'kk', 'm_in2'])
+        edits['replace'] = {old: f'({old}*g2)'}
+        exp_eqs = [edit_identifiers(e, {old: f'({old}*g2)'}) for e in exp_eqs]
+        added = f"s2' = -s2 + {old}*r"
+        edits['add'] = [added]
+        exp_eqs = exp_eqs + [added]
+        new_vars['g2'] = 0.625
+        new_vars['s2'] = 'variable(0.1)'
+    elif kind in ('replace', 'replace2'):
         # parameters and inputs only: replacing a state variable also on the left-hand side would be a rename, which the
         # edit dictionary does not offer (d/dt targets stay as they are)
         old = rng.choice(params + ['k', 'r2'])
@@ -151,6 +162,11 @@ class C15(Check):
                 e[2] = {k: v for k, v in e[2].items() if v is not None}
             if rng.random() < 0.4:
                 models.add_edge_templates(rng, spec, p=0.6)
+            if spec.get('circuits') and stratum != 'S-dual' and rng.random() < 0.4:
+                # two sub-circuit templates that share their NAME but not their content (e.g. columns made by one factory)
+                for sub in spec['circuits'].values():
+                    sub['name'] = 'col'
+                spec['build'] = 'python'
         if stratum == 'S-dual':
             return {'mode': 'dual', 'spec': spec}
         gens = rng.randint(1, 4)
